@@ -388,6 +388,15 @@ postgres_dialect.sets("unreserved_keywords").difference_update(
 # still match them.
 postgres_dialect.sets("unreserved_keywords").update(["SOURCE", "TARGET"])
 
+# Keywords which grammar elements of this dialect (including inherited
+# ones) refer to, but which are in neither keyword set.
+postgres_dialect.sets("unreserved_keywords").update(
+    [
+        "CURRENT_SESSION",
+        "EXECUTION",
+    ]
+)
+
 # Add datetime units
 postgres_dialect.sets("datetime_units").update(
     [
